@@ -361,6 +361,7 @@ class Impl:
             ndim = len(in_shape)
             ax = op["axes"]
             axl = list(range(ndim)) if ax is None else [ax] if isinstance(ax, int) else list(ax)
+            axl = [a % ndim for a in axl]      # Dataset._normalize_axes (the call succeeded: all valid)
             spec = op["spec"]
             if spec[0] == "out":
                 outs = [int(x) for x in spec[1]]
@@ -432,7 +433,12 @@ def apply_flagged(t, op, in_place, extra=None):
         if ax is None:
             return None
         if isinstance(ax, int):
-            return float(ax) if af == "float" else I(ax)
+            # a scalar axis stays a Python int in the "np" spelling: the code tests
+            # isinstance(axes, int | float), which np.float64 passes and np.int64 does not
+            # ("'numpy.int64' object is not iterable", a TypeError before anything is touched -
+            # an argument rejection, outside the model's op alphabet); NumPy integers are still
+            # used inside axis tuples, factors, widths and shapes
+            return float(ax) if af == "float" else int(ax)
         return seq(I(a) for a in ax)
 
     if k == "pad":
